@@ -274,7 +274,25 @@ mod imp {
                             tracker.expand_limit(expanded);
                         }
                         if trial.partial_variant & 1 != 0 {
-                            let _ = img.render_loading_frame();
+                            // a loading render that succeeds after the failure must show what a decoder
+                            // that never failed shows for the same prefix (added after seeded mutation c08-m3)
+                            let again = RenderObs::from_result(&img.render_loading_frame());
+                            if again.is_ok() {
+                                let fresh = {
+                                    let mut u2 = new_uninit(&LoadOpts { pool: JxlThreadPool::none(), tracker: Some(AllocTracker::with_limit(AMPLE)), force_wide: false });
+                                    let _ = u2.feed_bytes(&bytes[..fed]);
+                                    match u2.try_init() {
+                                        Ok(jxl_oxide::InitializeResult::Initialized(mut i2)) => Some(RenderObs::from_result(&i2.render_loading_frame())),
+                                        _ => None,
+                                    }
+                                };
+                                if let Some(fresh) = fresh {
+                                    let d = if fresh.is_ok() { fresh.diff(&again) } else { Some("a decoder that never failed cannot render this prefix, this one can".to_string()) };
+                                    if let Some(d) = d {
+                                        log.lock().unwrap().push((format!("LOADING_MISMATCH:{d}"), again, usize::MAX - 1));
+                                    }
+                                }
+                            }
                         }
                         if trial.partial_variant & 2 != 0 {
                             let mid = cut + (bytes.len() - cut) / 2;
@@ -362,7 +380,10 @@ mod imp {
             if partial {
                 stats.fault(if entries.first().map(|e| e.0 == "loading_render_failed").unwrap_or(false) { "partial:loading_render_failed" } else { "partial:loading_render_survived" });
             }
-            let entries: Vec<_> = entries.into_iter().filter(|e| e.2 != usize::MAX).collect();
+            if let Some(m) = entries.iter().find(|e| e.0.starts_with("LOADING_MISMATCH:")) {
+                return Err(viol(seed, sc, "corrupted_after_failure:loading_render".into(), format!("{ctx}: after the failed loading render and with the fault lifted, render_loading_frame of the same prefix succeeded but differs from a decoder that never failed: {}", &m.0["LOADING_MISMATCH:".len()..])));
+            }
+            let entries: Vec<_> = entries.into_iter().filter(|e| e.2 != usize::MAX && e.2 != usize::MAX - 1).collect();
             let first_failed = partial || entries.first().map(|e| !e.1.is_ok()).unwrap_or(false);
             if !partial { stats.fault(match trial.plan {
                 FaultPlan::FailFrom(_) => if first_failed { "alloc_fail_from_k:render_failed" } else { "alloc_fail_from_k:render_survived" },
